@@ -520,10 +520,12 @@ func c18GenScenario(r *Run, x *c18Exec, thorough bool) c18Scenario {
 			sc.Ops = append(sc.Ops, c18Op{Kind: "rxreset"})
 		case c < 92:
 			sc.Ops = append(sc.Ops, c18Op{Kind: "rxremove", K: c18Builtin})
-		case c < 95:
+		case c < 94:
 			sc.Ops = append(sc.Ops, c18Op{Kind: "rxadd", K: c18Builtin, V: "~"})
-		case c < 98:
+		case c < 96:
 			sc.Ops = append(sc.Ops, c18Op{Kind: "rxadd", K: `^/srv/[a-z]+/`, V: "$$SRV/"})
+		case c < 98:
+			sc.Ops = append(sc.Ops, c18Op{Kind: "rxadd", K: `/(src|pkg|x)/`, V: "/_/"})
 		default:
 			sc.Ops = append(sc.Ops, c18Op{Kind: "rxadd", K: `/node_modules/`, V: "/nm/"})
 		}
@@ -634,6 +636,13 @@ func runC18(r *Run) {
 		{c18Scenario{Priv: true, Rx: false, FlagAPI: "set", Ops: []c18Op{{Kind: "reset"}, {Kind: "add", K: "/a/b", V: "X"}, {Kind: "add", K: "/a/b/c", V: "Y"}}, Cwd: c18Root + "/w"}, []string{"/a/b/c/f", "/a/b/f", "/a/bc/f"}},
 		{c18Scenario{Priv: true, Rx: false, FlagAPI: "set", Ops: []c18Op{{Kind: "reset"}, {Kind: "add", K: "/aa", V: ""}, {Kind: "add", K: "/x", V: ""}}, Cwd: c18Root + "/w"}, []string{"/aa/x/a/xa/q", "/aa/aa/q"}},
 	}
+	// regexp mappings on paths that ALSO lie under a key: the prefix must stay hidden whatever the regexp rewrites
+	corpus = append(corpus, struct {
+		sc    c18Scenario
+		paths []string
+	}{c18Scenario{Priv: true, Rx: true, FlagAPI: "set", Cwd: c18Root + "/w",
+		Ops: []c18Op{{Kind: "rxadd", K: `/pkg/mod/[^/]+/`, V: "/mod/"}, {Kind: "rxadd", K: `/node_modules/`, V: "/nm/"}, {Kind: "add", K: "/opt/x", V: "X"}}},
+		[]string{home + "/go/pkg/mod/example.com/lib/a.go", home + "/p/node_modules/q/i.js", "/opt/x/pkg/mod/m/f.go", "/opt/x/node_modules/f.js", "/srv/pkg/mod/m/f.go", home + "/plain/f.go"}})
 	for _, c := range corpus {
 		x.run(r, c.sc, c.paths, reps, "corpus")
 	}
